@@ -408,6 +408,7 @@ impl Space for MonthDays {
         if valid_month && d >= 1 && d <= dim72 {
             let Oc::Ok(canon) = call(|| PlainMonthDay::new_with_overflow(m, d, Calendar::default(), ArithmeticOverflow::Reject, None)) else { return };
             let want = md_snapshot(&canon);
+            out.law("month-day calendar_id", canon.calendar_id() == "iso8601", || vec![("month", m.to_string()), ("day", d.to_string())]);
             let mut routes: Vec<(String, Oc<PlainMonthDay>)> = vec![];
             for t in [format!("{m:02}-{d:02}"), format!("--{m:02}-{d:02}"), format!("{m:02}{d:02}"), format!("--{m:02}{d:02}"), format!("{m:02}-{d:02}[u-ca=iso8601]")] {
                 routes.push((format!("from_str({t})"), call(|| PlainMonthDay::from_str(&t))));
